@@ -121,6 +121,9 @@ def slotted(  # noqa: C901
         # Erase __dict__ and __weakref__
         cls_dict.pop("__dict__", None)
         cls_dict.pop("__weakref__", None)
+        # Erase the slot names `copyreg` caches on a class the first time an instance
+        #   is copied or pickled: they were computed for the class *without* slots.
+        cls_dict.pop("__slotnames__", None)
 
         # Pickle fix for frozen dataclass as mentioned in https://bugs.python.org/issue36424
         # Use only if __getstate__ and __setstate__ are not declared and frozen=True
